@@ -154,6 +154,24 @@ class Result:
         self.aad = None
 
 
+COMPANION = None      # (compact token, key argument): opened by the key callable of the delivery in progress (re-entrancy)
+ANNOTATE = True       # after every accepted delivery the application edits the header objects it got back
+
+
+def _reentrant(keyarg, reg, sender_arg):
+    """key argument that, when asked for the key, first opens another compact JWE (the companion) through the same API"""
+    from joserfc import jwe
+    comp, comp_key = COMPANION
+
+    def resolve(obj, _arg=keyarg):
+        try:
+            jwe.decrypt_compact(comp, comp_key, registry=reg, sender_key=sender_arg)
+        except Exception:
+            pass
+        return _arg(obj) if callable(_arg) else _arg
+    return resolve
+
+
 def deliver(entry: str, ser, keyarg, sender_arg=None, reg=None, any_recipient: bool = False) -> Result:
     from joserfc import jwe, jwt
     ensure_drafts_registered()
@@ -162,6 +180,8 @@ def deliver(entry: str, ser, keyarg, sender_arg=None, reg=None, any_recipient: b
         reg = registry(any_recipient)
     if isinstance(ser, dict):
         ser = copy.deepcopy(ser)
+    if COMPANION is not None and isinstance(ser, str):
+        keyarg = _reentrant(keyarg, reg, sender_arg)
     try:
         with warnings.catch_warnings():
             warnings.simplefilter("ignore")
@@ -184,10 +204,16 @@ def deliver(entry: str, ser, keyarg, sender_arg=None, reg=None, any_recipient: b
     r.accepted = True
     r.obj = obj
     r.plaintext = obj.plaintext
-    r.protected = obj.protected
-    r.unprotected = getattr(obj, "unprotected", None)
+    r.protected = copy.deepcopy(obj.protected)
+    r.unprotected = copy.deepcopy(getattr(obj, "unprotected", None))
     r.aad = getattr(obj, "aad", None)
-    r.rheaders = [x.header for x in obj.recipients]
+    r.rheaders = [copy.deepcopy(x.header) for x in obj.recipients]
+    if ANNOTATE:
+        # the returned object is the application's (verdict copied above): nothing it does to it may reach a later call
+        for hp in [obj.protected, getattr(obj, "unprotected", None)] + [x.header for x in obj.recipients]:
+            if isinstance(hp, dict):
+                hp.pop("zip", None)
+                hp["annotated-by"] = "application"
     return r
 
 
